@@ -216,6 +216,40 @@ theorem skip_sound_route_valid (cid : Nat) (route : List Pt) (lt3 : Lt3) (rpOld 
     rw [← hu, ← hv]
     exact edgeBlocked_false_sound s r (hconv s hs).1 (hconv s hs).2 hb g1 g2 g3
 
+open AdaptaVerif.Lemmas.Route (rectPoly) in
+open AdaptaVerif.Spec.Route (RouteValid StrictlyInside SegHits) in
+/-- **skip_sound_route_valid_rect** (rectangles — the shapes of the correspondence harness; conclusion in terms of
+    the C03 specification, so `routeValid_complete` of Props/C03 applies).  If the route of a connector that the
+    transaction does not flag was `RouteValid` for the old scene, every leg of it is registered, the new scene
+    consists of old shapes and added / moved rectangles, and the route is in general position w.r.t. them, then
+    it is `RouteValid` for the new scene. -/
+theorem skip_sound_route_valid_rect (cid : Nat) (route : List Pt) (lt3 : Lt3) (rpOld rpNew : Polys)
+    (acts : List Action) (rst : RState) (hex : ∃ c ∈ rst.conns, c.id = cid) (hcov : Covered rst.regs cid route)
+    (hquiet : ∀ c ∈ (flagTxn lt3 rpOld rpNew acts rst).conns, c.id = cid → c.needsReroute = false)
+    (oldShapes newShapes : List Poly) (src dst : Pt)
+    (hold : RouteValid oldShapes [] src dst route)
+    (hnew : ∀ s ∈ newShapes, s ∈ oldShapes ∨ ∃ a ∈ acts, (a.kind = .add ∨ a.kind = .move) ∧ rpNew a.id = s)
+    (hrect : ∀ s ∈ newShapes, ∃ x0 y0 x1 y1 : Rat, x0 < x1 ∧ y0 < y1 ∧ s = rectPoly x0 y0 x1 y1)
+    (hgen : ∀ l ∈ legs route, ∀ s ∈ newShapes, ¬ StrictlyInside s l.1 ∧ ¬ StrictlyInside s l.2 ∧
+      ∀ v ∈ s, ∀ t : Rat, 0 < t → t < 1 → lerp l.1 l.2 t ≠ v) :
+    RouteValid newShapes [] src dst route := by
+  obtain ⟨h1, h2, h3, h4⟩ := hold
+  refine ⟨h1, h2, h3, ?_⟩
+  intro l hl i hi _ hhit
+  have hs : newShapes[i] ∈ newShapes := List.getElem_mem hi
+  rcases hnew _ hs with ho | ⟨a, ha, hk, hp⟩
+  · obtain ⟨j, hj, he⟩ := List.getElem_of_mem ho
+    exact h4 l hl j hj (by simp) (by rw [he]; exact hhit)
+  · obtain ⟨r, hr, hc, hu, hv⟩ := hcov l hl
+    have hb := (skip_sound_registration cid lt3 rpOld rpNew acts rst r hex hr hc hquiet).2.1 a ha hk
+    rw [hp] at hb
+    obtain ⟨x0, y0, x1, y1, hx, hy, hsr⟩ := hrect _ hs
+    obtain ⟨g1, g2, g3⟩ := hgen l hl _ hs
+    rw [hsr] at hb g1 g2 g3 hhit
+    rw [← hu] at g1 g3 hhit
+    rw [← hv] at g2 g3 hhit
+    exact edgeBlocked_false_sound_rect x0 y0 x1 y1 hx hy r hb g1 g2 g3 hhit
+
 open AdaptaVerif.Lemmas.RerouteScene in
 /-- **new_scene_obstacle_cases** (discharges `hnew` above from the scene model of Model/ActionQueue): every
     obstacle object the scene holds after `processActions` is either an obstacle of the old scene at which no
